@@ -99,6 +99,51 @@ pub fn is_dropped_macro(m: &syn::Macro) -> bool {
     let p = nospace(&m.path.to_token_stream().to_string());
     p.starts_with("log::") || p == "eprintln" || p == "println" || p == "debug_assert" || p == "debug_assert_eq" || p == "dbg"
 }
+/// G7: a strong handle obtained by an upgrade must not be alive at a sleep (a timer body that keeps one across its sleep keeps its own
+/// actor alive for a period). A binding made from a call of one of `ups` (by `let`, `let .. else`, `if let`, `while let`, a `match` arm)
+/// whose scope contains a later call of one of `sleeps`, with no `drop(binding)` in between at the same level, gets the marker call
+/// `marker();` (whose precondition is the obligation) placed in front of the binding statement. Returns the number of sites.
+pub fn mark_held_across(b: &mut syn::Block, ups: &[String], sleeps: &[String], marker: &str) -> usize {
+    fn calls_any(ts: TokenStream, names: &[String]) -> bool {
+        let v: Vec<TokenTree> = ts.into_iter().collect();
+        for i in 0..v.len() { match &v[i] {
+            TokenTree::Ident(id) if names.iter().any(|n| id == n) => { if matches!(v.get(i + 1), Some(TokenTree::Group(g)) if g.delimiter() == proc_macro2::Delimiter::Parenthesis) || matches!((v.get(i + 1), v.get(i + 2)), (Some(TokenTree::Punct(p)), Some(TokenTree::Punct(q))) if p.as_char() == ':' && q.as_char() == ':') { return true; } }
+            TokenTree::Group(g) => { if calls_any(g.stream(), names) { return true; } }
+            _ => {}
+        } }
+        false
+    }
+    fn is_drop_of(st: &Stmt, names: &BTreeSet<String>) -> bool {
+        if let Stmt::Expr(Expr::Call(c), _) = st { let f = nospace(&c.func.to_token_stream().to_string()); if matches!(f.as_str(), "drop" | "std::mem::drop" | "mem::drop") && c.args.len() == 1 { if let Expr::Path(p) = &c.args[0] { if let Some(i) = p.path.get_ident() { return names.contains(&i.to_string()); } } } }
+        false
+    }
+    fn walk_block(b: &mut syn::Block, ups: &[String], sleeps: &[String], marker: &syn::Ident, n: &mut usize) {
+        let mut i = 0;
+        while i < b.stmts.len() {
+            let mut flag = false;
+            if let Stmt::Local(l) = &b.stmts[i] { if let Some(init) = &l.init { if calls_any(init.expr.to_token_stream(), ups) {
+                let names = { let mut s = BTreeSet::new(); Binders(&mut s).visit_pat(&l.pat); s };
+                if !names.is_empty() { for st in &b.stmts[i + 1..] { if is_drop_of(st, &names) { break; } if calls_any(st.to_token_stream(), sleeps) { flag = true; break; } } }
+            } } }
+            if let Stmt::Expr(e, _) = &b.stmts[i] { match e {
+                Expr::If(ifx) => { if let Expr::Let(l) = &*ifx.cond { if calls_any(l.expr.to_token_stream(), ups) && calls_any(ifx.then_branch.to_token_stream(), sleeps) { flag = true; } } }
+                Expr::While(wl) => { if let Expr::Let(l) = &*wl.cond { if calls_any(l.expr.to_token_stream(), ups) && calls_any(wl.body.to_token_stream(), sleeps) { flag = true; } } }
+                Expr::Match(m) => { if calls_any(m.expr.to_token_stream(), ups) && m.arms.iter().any(|a| !binders_of(&a.pat).is_empty() && calls_any(a.body.to_token_stream(), sleeps)) { flag = true; } }
+                _ => {}
+            } }
+            if flag { let st: Stmt = parse_quote!(#marker();); b.stmts.insert(i, st); *n += 1; i += 1; }
+            // descend
+            struct D<'a> { ups: &'a [String], sleeps: &'a [String], marker: &'a syn::Ident, n: &'a mut usize }
+            impl<'a> VisitMut for D<'a> { fn visit_block_mut(&mut self, bb: &mut syn::Block) { walk_block(bb, self.ups, self.sleeps, self.marker, self.n); } }
+            let mut d = D { ups, sleeps, marker, n };
+            d.visit_stmt_mut(&mut b.stmts[i]);
+            i += 1;
+        }
+    }
+    let mk = ident(marker); let mut n = 0usize;
+    walk_block(b, ups, sleeps, &mk, &mut n);
+    n
+}
 /// D1 drops log statements; an argument that does more than read (a call that is not a known reader) is kept as a statement of its
 /// own, so that a side effect hidden in a log line stays in the verified text
 pub fn impure_log_args(m: &syn::Macro) -> Result<Vec<Expr>, String> {
@@ -400,6 +445,7 @@ pub struct Rw<'c> {
     pub loops: usize,
     pub g6_sites: usize,          // lock guards found alive across an await (rule G6), also reported by a separate marker function per site
     pub self_to_this: bool,
+    pub self_by_value: bool,   // the receiver is `self` / `mut self` (not a reference): `self.await` may move it
     pub closures: usize,
     pub lifted_closures: Vec<LiftedClosure>,
     pub lift_prefix: String,
@@ -455,7 +501,7 @@ fn has_control_escape(e: &Expr) -> bool {
 }
 
 impl<'c> Rw<'c> {
-    pub fn new(cx: &'c mut Ctx, lifted: bool, binders: BTreeSet<String>, fn_name: String) -> Self { Rw { cx, lifted, binders, lift_prefix: fn_name.replace("::", "__").replace('@', "_"), fn_name, loops: 0, g6_sites: 0, self_to_this: false, closures: 0, lifted_closures: vec![], gen_idents: vec![], typed_ctors: BTreeSet::new(), typed_caps: BTreeSet::new(), into_params: BTreeSet::new(), local_types: Default::default(), ctor_param_names: Default::default() } }
+    pub fn new(cx: &'c mut Ctx, lifted: bool, binders: BTreeSet<String>, fn_name: String) -> Self { Rw { cx, lifted, binders, lift_prefix: fn_name.replace("::", "__").replace('@', "_"), fn_name, loops: 0, g6_sites: 0, self_to_this: false, self_by_value: false, closures: 0, lifted_closures: vec![], gen_idents: vec![], typed_ctors: BTreeSet::new(), typed_caps: BTreeSet::new(), into_params: BTreeSet::new(), local_types: Default::default(), ctor_param_names: Default::default() } }
 
     fn select_to_match(&mut self, m: &syn::Macro) -> Option<Expr> {
         let arms: Arms = match syn::parse2(m.tokens.clone()) { Ok(a) => a, Err(e) => { self.cx.err(format!("outside dialect: select! arms in {}: {}", self.fn_name, e)); return None; } };
@@ -689,6 +735,13 @@ impl<'c> VisitMut for Rw<'c> {
 
     fn visit_expr_mut(&mut self, e: &mut Expr) {
         // ---------------- pre-order ----------------
+        // `name/N` in the unit file: a call of `name` with another number of arguments is some other function: hide it from the
+        // name-based rules (A1, A1b, G1) for this visit by renaming it to a private alias and back afterwards
+        // (the emitter strips the `hx_other__` prefix again when it prints the line)
+        if let Some(n) = call_last_ident(e) { if let Some(want) = self.cx.unit.arity.get(&n).cloned() {
+            let have = match e { Expr::MethodCall(m) => Some(m.args.len()), _ => None };
+            if let Some(h) = have { if h != want { let alias = format!("hx_other__{}", n); rename_call(e, &alias); self.cx.fire("N2"); } }
+        } }
         // A1n: `now_or_never` applied to the un-awaited call of an eager (async) function polls that call's future ONCE: the call is named
         // as a future value (`m__fut`, whose model says what one poll may already have done), never run to completion
         {
@@ -1069,7 +1122,7 @@ impl<'c> VisitMut for Rw<'c> {
         if let Expr::Await(a) = e {
             let base = &a.base; self.cx.fire("A2");
             // `x.await` consumes x: the binding need not be `mut` in the source even where the model's `await_` takes `&mut self` (rule A6)
-            let plain = matches!(&**base, Expr::Path(p) if p.path.get_ident().map(|i| i != "self").unwrap_or(false));
+            let plain = matches!(&**base, Expr::Path(p) if p.path.get_ident().map(|i| i != "self" || (self.self_by_value && !self.self_to_this)).unwrap_or(false));
             if plain { *e = parse_quote!({ let mut hx_aw = #base; hx_aw.await_(Tracked(w)) }); } else { *e = parse_quote!(#base.await_(Tracked(w))); }
         }
         // closures and async blocks that survive to this point are outside the dialect unless a later rule lifts them
